@@ -5,11 +5,14 @@
 package main
 
 import (
+	"context"
 	"fmt"
 	"math/big"
 	"strings"
 
+	"gitlab.com/aquachain/aquachain/aquadb"
 	"gitlab.com/aquachain/aquachain/common"
+	"gitlab.com/aquachain/aquachain/consensus/aquahash"
 	"gitlab.com/aquachain/aquachain/common/log"
 	"gitlab.com/aquachain/aquachain/core"
 	"gitlab.com/aquachain/aquachain/core/types"
@@ -855,7 +858,7 @@ type blockCase struct {
 	txs    []*types.Transaction
 	froms  []common.Address
 	limit  uint64 // block gas limit
-	claimDelta int64
+	claimMode string // how the header's GasUsed is tampered: "", "+1", "-1", "zero", "limit"
 	class  string
 }
 
@@ -880,7 +883,7 @@ func genBlock(c *vh.Ctx) *blockCase {
 	}
 	b.world = append(b.world, Acct{Addr: inner2, Code: target, Bal: big.NewInt(10), Storage: map[byte]byte{0: 1}}, Acct{Addr: drvAddr, Code: driver.Op(STOP).B, Bal: big.NewInt(30)})
 	nonce := map[common.Address]uint64{addrA: 3, addrB: 0}
-	n := 1 + r.Intn(4)
+	n := r.Intn(5) // 0..4 transactions: empty blocks too
 	sum := uint64(0)
 	var kinds []string
 	for i := 0; i < n; i++ {
@@ -935,11 +938,12 @@ func genBlock(c *vh.Ctx) *blockCase {
 	default:
 		b.limit = 8000000
 	}
-	if r.Intn(6) == 0 {
-		b.claimDelta = int64(r.Intn(3)) - 1
-		if b.claimDelta == 0 {
-			b.claimDelta = 1
-		}
+	if sum == 0 {
+		b.limit = 8000000
+	}
+	if r.Intn(3) == 0 {
+		b.claimMode = []string{"+1", "-1", "zero", "limit"}[r.Intn(4)]
+		kinds = append(kinds, "claimed-gas-used:"+b.claimMode)
 	}
 	b.u = Universe{addrA, addrB, coinbase, sink, fresh, callee, inner, inner2, drvAddr,
 		crypto.CreateAddress(addrA, 3), crypto.CreateAddress(addrA, 4), crypto.CreateAddress(addrA, 5), crypto.CreateAddress(addrA, 6), crypto.CreateAddress(addrA, 7),
@@ -950,6 +954,21 @@ func genBlock(c *vh.Ctx) *blockCase {
 	}
 	b.class = fmt.Sprintf("block[%s]|%s", strings.Join(kinds, ","), fmtByz)
 	return b
+}
+
+// claimedGas: the GasUsed a (possibly dishonest) header claims
+func claimedGas(mode string, trueUsed, limit uint64) uint64 {
+	switch mode {
+	case "+1":
+		return trueUsed + 1
+	case "-1":
+		return trueUsed - 1 // wraps to 2^64-1 for an empty block
+	case "zero":
+		return 0
+	case "limit":
+		return limit
+	}
+	return trueUsed
 }
 
 var chains = map[string]*core.BlockChain{}
@@ -1004,7 +1023,8 @@ func runBlock(c *vh.Ctx, m *vh.Model, b *blockCase) {
 	}
 	// B: the real StateProcessor.Process on the same pre-state
 	sdbB := BuildState(b.world)
-	header.GasUsed = uint64(int64(sumUsed) + b.claimDelta)
+	header.GasUsed = claimedGas(b.claimMode, sumUsed, b.limit)
+	tampered := header.GasUsed != sumUsed
 	block := types.NewBlock(header, b.txs, nil, nil)
 	var pr types.Receipts
 	var pused uint64
@@ -1047,8 +1067,8 @@ func runBlock(c *vh.Ctx, m *vh.Model, b *blockCase) {
 		if verr != nil {
 			valid = "0"
 		}
-		if (b.claimDelta != 0) != (verr != nil) {
-			c.Violate("validate-state-gas-used", fmt.Sprintf("claimed gas used off by %d, ValidateState says %v", b.claimDelta, verr), map[string]interface{}{"class": b.class})
+		if tampered != (verr != nil) {
+			c.Violate(fmt.Sprintf("validate-state-gas-used/txs=%d/claim=%s", len(b.txs), b.claimMode), fmt.Sprintf("header claims gas used %d, the receipts sum to %d, ValidateState says %v", header.GasUsed, sumUsed, verr), map[string]interface{}{"class": b.class})
 		}
 		if pused > b.limit {
 			c.Violate("block-gas-above-limit", fmt.Sprintf("used %d limit %d", pused, b.limit), map[string]interface{}{"class": b.class})
@@ -1070,7 +1090,7 @@ func runBlock(c *vh.Ctx, m *vh.Model, b *blockCase) {
 	out := "ok"
 	if perr != nil {
 		out = "err:" + ErrName(perr)
-	} else if b.claimDelta != 0 {
+	} else if tampered {
 		out = "gas-used-mismatch"
 	}
 	c.Eval(b.class+"|"+out, b.class+"|"+out)
@@ -1083,6 +1103,131 @@ func runBlock(c *vh.Ctx, m *vh.Model, b *blockCase) {
 		}
 		c.Count("oracle:state-root-checked")
 	}
+}
+
+// ------------------------------------------------------------------ tampered headers through BlockChain.InsertChain
+
+// runInsert builds a valid block 1 with 0, 1 or 3 transactions on a genesis holding the world (core.GenerateChain),
+// re-seals it with a tampered GasUsed (faked proof of work) and offers it to BlockChain.InsertChain: the block must be
+// accepted exactly when the claimed gas used is the sum over the receipts.  The model's block_valid is compared on it.
+func runInsert(c *vh.Ctx, m *vh.Model, idx int) {
+	r := c.Rng
+	ccs := []cfgChoice{{Builtin(4), 1, "test@1"}, {Builtin(0), 1, "mainnet@1"}, {Builtin(5), 1, "all@1"}}
+	cc := ccs[idx%3]
+	cfg := cc.cfg.C
+	A := func() *Asm { return &Asm{} }
+	world := []Acct{{Addr: addrA, Bal: Big("1000000000000000000"), Nonce: 3}, {Addr: addrB, Bal: Big("1000000000000000000")},
+		{Addr: callee, Code: A().SStore(0, 0).SStore(1, 1).Op(STOP).B, Storage: map[byte]byte{0: 1}}, {Addr: inner, Code: A().SStore(2, 1).Op(INVALID).B}, {Addr: sink, Bal: big.NewInt(1)}}
+	alloc := core.GenesisAlloc{}
+	for _, a := range world {
+		ga := core.GenesisAccount{Balance: new(big.Int), Nonce: a.Nonce, Code: a.Code}
+		if a.Bal != nil {
+			ga.Balance = a.Bal
+		}
+		if len(a.Storage) > 0 {
+			ga.Storage = map[common.Hash]common.Hash{}
+			for k, v := range a.Storage {
+				ga.Storage[common.BytesToHash([]byte{k})] = common.BytesToHash([]byte{v})
+			}
+		}
+		alloc[a.Addr] = ga
+	}
+	db := aquadb.NewMemDatabase()
+	gspec := &core.Genesis{Config: cfg, Alloc: alloc, GasLimit: 8000000, Difficulty: big.NewInt(1)}
+	genesis := gspec.MustCommit(db)
+	n := []int{0, 0, 1, 3}[(idx/3)%4]
+	mode := []string{"", "+1", "-1", "zero", "limit"}[(idx/12)%5]
+	if idx >= 60 {
+		n, mode = []int{0, 1, 3}[r.Intn(3)], []string{"", "+1", "-1", "zero", "limit"}[r.Intn(5)]
+	}
+	signer := types.MakeSigner(cfg, big.NewInt(1))
+	var txs []*types.Transaction
+	var froms []common.Address
+	nonceA := uint64(3)
+	for i := 0; i < n; i++ {
+		var tx *types.Transaction
+		price := big.NewInt(int64(r.Intn(3)))
+		switch r.Intn(4) {
+		case 0:
+			tx = types.NewTransaction(nonceA, sink, big.NewInt(5), 21000, price, nil)
+		case 1:
+			tx = types.NewTransaction(nonceA, callee, big.NewInt(0), 100000, price, []byte{1, 0})
+		case 2:
+			tx = types.NewTransaction(nonceA, inner, big.NewInt(1), 100000, price, nil)
+		default:
+			tx = types.NewContractCreation(nonceA, big.NewInt(1), 100000, price, InitReturning(A().Op(STOP).B))
+		}
+		stx, err := types.SignTx(tx, signer, keyA)
+		if err != nil {
+			panic(err)
+		}
+		txs, froms, nonceA = append(txs, stx), append(froms, addrA), nonceA+1
+	}
+	var blocks []*types.Block
+	if pan, v := vh.CatchPanic(func() {
+		blocks, _ = core.GenerateChain(context.Background(), cfg, genesis, aquahash.NewFaker(), db, 1, func(i int, g *core.BlockGen) {
+			g.SetCoinbase(coinbase)
+			for _, tx := range txs {
+				g.AddTx(tx)
+			}
+		})
+	}); pan {
+		c.Fatal("GenerateChain panicked: %v", v)
+	}
+	good := blocks[0]
+	trueUsed := good.GasUsed()
+	hdr := good.Header()
+	hdr.GasUsed = claimedGas(mode, trueUsed, hdr.GasLimit)
+	tampered := hdr.GasUsed != trueUsed
+	offered := types.NewBlockWithHeader(hdr).WithBody(txs, nil)
+	bc, err := core.NewBlockChain(context.Background(), db, nil, cfg, aquahash.NewFaker(), vm.Config{})
+	if err != nil {
+		c.Fatal("NewBlockChain: %v", err)
+	}
+	defer bc.Stop()
+	var ierr error
+	if pan, v := vh.CatchPanic(func() { _, ierr = bc.InsertChain(types.Blocks{offered}) }); pan {
+		c.Violate("insert-chain-panic", fmt.Sprintf("InsertChain panics: %v", v), map[string]interface{}{"txs": n, "claim": mode})
+		return
+	}
+	class := fmt.Sprintf("insert|%s|txs=%d|claim=%s", cc.name, n, mode)
+	replay := map[string]interface{}{"class": class, "true_gas_used": trueUsed, "claimed_gas_used": hdr.GasUsed, "gas_limit": hdr.GasLimit, "insert_error": fmt.Sprint(ierr)}
+	c.Eval(class, class)
+	switch {
+	case tampered && ierr == nil:
+		c.Violate(fmt.Sprintf("tampered-gas-used-accepted/txs=%d/claim=%s", n, mode), fmt.Sprintf("a block of %d transactions whose header claims gas used %d (the receipts sum to %d, gas limit %d) was accepted by InsertChain", n, hdr.GasUsed, trueUsed, hdr.GasLimit), replay)
+	case !tampered && ierr != nil:
+		c.Violate(fmt.Sprintf("honest-block-rejected/txs=%d", n), "InsertChain rejected a block built by GenerateChain: "+ierr.Error(), replay)
+	}
+	// the model on the same block: oracle table from a transaction-by-transaction run on the same pre-state
+	u := Universe{addrA, addrB, coinbase, sink, fresh, callee, inner, crypto.CreateAddress(addrA, 3), crypto.CreateAddress(addrA, 4), crypto.CreateAddress(addrA, 5)}.Sorted()
+	sdb := BuildState(world)
+	preDump := DumpState(sdb, u)
+	gp := new(core.GasPool).AddGas(hdr.GasLimit)
+	used := uint64(0)
+	var msgs, oracles []string
+	for i, tx := range txs {
+		run := ApplyTx(cfg, bc, good.Header(), sdb, gp, &used, tx, i, u)
+		if run.Err != nil || run.Panic != nil {
+			c.Fatal("insert part: generated transaction failed: %v %v", run.Err, run.Panic)
+		}
+		msgs, oracles = append(msgs, MsgTok(froms[i], tx)), append(oracles, run.T.Oracle())
+	}
+	tt, oo := "-", "-"
+	if len(msgs) > 0 {
+		tt, oo = strings.Join(msgs, ";"), strings.Join(oracles, ";")
+	}
+	req := fmt.Sprintf("block %s - 1 %s %s %s %s %s - %s", cc.cfg.Token, HexAddr(coinbase), HexU(hdr.GasLimit), HexU(hdr.GasUsed), preDump, tt, oo)
+	ans := m.Ask(req)
+	mv := kv(ans, "valid")
+	if !strings.HasPrefix(ans, "ok ") {
+		mv = "0"
+	}
+	ov := "1"
+	if ierr != nil {
+		ov = "0"
+	}
+	c.Correspond("BlockChain.InsertChain~block_valid", req, "valid="+ov, "valid="+mv)
 }
 
 func main() {
@@ -1131,6 +1276,8 @@ func main() {
 			runCase(c, m, genCase(c))
 		case "block":
 			runBlock(c, m, genBlock(c))
+		case "insert":
+			runInsert(c, m, i)
 		default:
 			c.Fatal("unknown replay part %q", part)
 		}
@@ -1153,6 +1300,11 @@ func main() {
 	nb := c.Scale(400, 10000)
 	for i := 0; i < nb; i++ {
 		one("block", i)
+	}
+	// indices 0..59 enumerate {3 configurations} x {0,0,1,3 transactions} x {honest,+1,-1,zero,limit}: directed on every seed
+	ni := c.Scale(72, 1200)
+	for i := 0; i < ni; i++ {
+		one("insert", i)
 	}
 	c.Finish()
 }
